@@ -15,10 +15,41 @@ type Router int
 const (
 	Curly Router = iota
 	JSR311
+	// Lenient readings of two points no property decides (used only to ACCEPT an outcome that the
+	// base reading rejects, never to demand one): a plain CurlyRouter variable facing an empty
+	// segment, and a tail wildcard facing zero remaining segments.
+	curlyNoEmptyVar
+	curlyTailZero
+	curlyNoEmptyVarTailZero
+	jsrTailZero
 )
 
+// Base is the router a (possibly lenient) reading belongs to.
+func (r Router) Base() Router {
+	if r == JSR311 || r == jsrTailZero {
+		return JSR311
+	}
+	return Curly
+}
+
+// Readings lists the base reading followed by the lenient ones.
+func (r Router) Readings() []Router {
+	if r.Base() == JSR311 {
+		return []Router{JSR311, jsrTailZero}
+	}
+	return []Router{Curly, curlyNoEmptyVar, curlyTailZero, curlyNoEmptyVarTailZero}
+}
+
+func (r Router) emptyVarRejected() bool {
+	return r == curlyNoEmptyVar || r == curlyNoEmptyVarTailZero || r.Base() == JSR311
+}
+
+func (r Router) tailAdmitsZero() bool {
+	return r == curlyTailZero || r == curlyNoEmptyVarTailZero || r == jsrTailZero
+}
+
 func (r Router) String() string {
-	if r == Curly {
+	if r.Base() == Curly {
 		return "curly"
 	}
 	return "jsr311"
@@ -157,12 +188,12 @@ func Admits(t Tok, seg string, r Router) (bool, string) {
 	case Lit:
 		return seg == t.Text, ""
 	case Var:
-		if r == JSR311 {
+		if r.emptyVarRejected() {
 			return seg != "", seg
 		}
 		return true, seg
 	case Re:
-		re := compiled(t.Expr, r == JSR311)
+		re := compiled(t.Expr, r.Base() == JSR311)
 		if re == nil {
 			return false, ""
 		}
@@ -188,7 +219,7 @@ func Admits(t Tok, seg string, r Router) (bool, string) {
 // empty segment). RouterJSR311: the raw path; tail tells whether a trailing empty segment is
 // kept (templates ending in a tail wildcard) or one final empty segment is ignored.
 func Segments(path string, r Router, tail bool) []string {
-	if r == Curly {
+	if r.Base() == Curly {
 		if path == "/" {
 			return nil
 		}
@@ -209,6 +240,9 @@ func PathMatches(toks []Tok, path string, r Router) (bool, map[string]string) {
 	tail := len(toks) > 0 && toks[len(toks)-1].Kind == Tail
 	segs := Segments(path, r, tail)
 	if tail {
+		if len(segs) == len(toks)-1 && r.tailAdmitsZero() {
+			segs = append(append([]string{}, segs...), "")
+		}
 		if len(segs) < len(toks) {
 			return false, nil
 		}
@@ -283,7 +317,7 @@ func Substitute(toks []Tok, b map[string]string) string {
 // segment under both routers; a regex root variable must be satisfied.
 func Claims(root []Tok, path string, r Router) bool {
 	segs := Segments(path, r, true)
-	if r == Curly {
+	if r.Base() == Curly {
 		segs = Segments(path, r, false)
 	}
 	if len(root) > len(segs) {
@@ -298,7 +332,7 @@ func Claims(root []Tok, path string, r Router) bool {
 			}
 		case Tail:
 			// a tail wildcard in a root path claims whatever follows
-			if r == Curly && s == "" {
+			if r.Base() == Curly && s == "" {
 				return false
 			}
 			return true
